@@ -3,7 +3,7 @@ namespace RgVerif.Driver.C17
 open RgVerif RgVerif.Decode RgVerif.Utf16Spec
 
 /-
-Requests (LABEL = none | utf8 | utf16le | utf16be | latin1; SNIFF = 0|1)
+Requests (LABEL = none | utf8 | utf16le | utf16be | latin1 | sjis; SNIFF = 0|1)
   c17.reader (cfg LABEL SNIFF) (chunks hex…)   -> hex   bytes the searcher reads through DecodeReaderBytes
   c17.slice  (cfg LABEL SNIFF) hex              -> hex   bytes search_slice searches
   c17.spec   (cfg LABEL SNIFF) hex              -> hex   the contract: UTF-8 equivalent
@@ -13,12 +13,10 @@ Requests (LABEL = none | utf8 | utf16le | utf16be | latin1; SNIFF = 0|1)
 All decoders are streaming machines of Model/Decode.lean (UTF-16, UTF-8, single-byte table).
 -/
 
-def other : Nat → Bytes → Bytes
-  | 0 => transcode1252
-  | _ => fun bs => bs
+/-- The decoders: all are the streaming machines of Model/Decode.lean. -/
+def M : Enc → Machine := machines utf8Machine otherMachine
 
-/-- The decoders: UTF-16 and UTF-8 are the modelled streaming machines, windows-1252 the table machine. -/
-def M : Enc → Machine := machines utf8Machine (fun _ => tableMachine win1252)
+def other : Nat → Bytes → Bytes := otherSpec
 
 def parseLabel : Sx → Option (Option Enc)
   | .atom "none" => some none
@@ -26,6 +24,7 @@ def parseLabel : Sx → Option (Option Enc)
   | .atom "utf16le" => some (some .utf16le)
   | .atom "utf16be" => some (some .utf16be)
   | .atom "latin1" => some (some (.other 0))
+  | .atom "sjis" => some (some (.other 1))
   | _ => none
 
 def parseCfg : Sx → Option Cfg
